@@ -14,7 +14,7 @@ mkdir -p "$(dirname "$demo")"; cp "$demofile" "$demo"
 pkg="./$(dirname "$demo")"
 echo "--- without patch: demo must pass"
 "$VGO" test -count=1 "$@" "$pkg" > /tmp/sv.$$ 2>&1; a=$?; tail -3 /tmp/sv.$$
-git apply "$sd/patch.diff" || { echo "PATCH DOES NOT APPLY"; exit 2; }
+git apply "$sd/patch.diff" 2>/dev/null || git apply --3way "$sd/patch.diff" >/dev/null 2>&1 || { echo "PATCH DOES NOT APPLY"; exit 2; }
 echo "--- with patch: build + existing suite must pass (demo moved away)"
 mv "$demo" /tmp/demo.$$.go
 "$VGO" build ./... && "$VGO" test -count=1 ./... > /tmp/sv.$$ 2>&1; b=$?; tail -4 /tmp/sv.$$
